@@ -1,6 +1,7 @@
 import PiqpProofs.Basic
 import PiqpModel.Solver
 import PiqpModel.Checkers
+import PiqpProofs.Properties.C01
 
 /-!
 # C09 — reported diagnostics describe the returned point
@@ -26,3 +27,50 @@ theorem iter_le_max_iter (st : Settings K) (cs : Consts K) (ops : LoopOps K σ) 
   fun_induction loopG st cs ops c s info <;> simp_all <;> omega
 
 end Piqp.C09
+
+/-!
+## The reported objectives are those of the returned point
+
+`C01.objectives_are_users` says what `update_nr_residuals` computes; `C01.loop_solved_fresh` says that at a SOLVED return the
+stored diagnostics belong to the returned iterate. Together: for every back end and every failure pattern, at SOLVED the
+reported `primal_obj` and `dual_obj` are exactly the primal and dual objectives of the *unscaled* returned point for the
+*user's* data (cost scaling included), and `primal_inf`, `dual_inf` are the norms the solver formed from the residuals of that
+same point (whose entries are the user's residuals by `C01.dual_residual_is_users` / `primal_residuals_are_users`).
+-/
+
+namespace Piqp.C09
+section objectives
+open Finset Piqp.C13 Piqp.C15 Piqp.C01
+variable {K : Type} [Field K] [LinearOrder K] [IsStrictOrderedRing K]
+variable {n p m : Nat}
+
+theorem solved_objectives (e : Env K n p m) (d0 : Data K n p m) (hk : e.pk ≠ .identity)
+    (hs : Scaled d0 e.data e.pre) (hi : InvFull e.pre) (ls : LoopState K n p m) (h0 : ls.c.iter = 0)
+    (hsolved : (mainLoop e ls).2 = Status.solved) :
+    let w := (mainLoop e ls).1.w
+    let info := (mainLoop e ls).1.info
+    let x := e.pre.unscalePrimal e.pk w.x
+    let y := e.pre.unscaleDualEq e.pk w.y
+    let z := e.pre.unscaleDualIneq e.pk w.z
+    let zl := e.pre.unscaleDualLb e.pk w.z_lb
+    let zu := e.pre.unscaleDualUb e.pk w.z_ub
+    info.status = Status.solved ∧
+    info.primalObj = e.cs.c0_5 * userQuad d0 x + ∑ i : Fin n, d0.c[i] * x[i] ∧
+    info.dualObj = -e.cs.c0_5 * userQuad d0 x - (∑ t : Fin p, d0.b[t] * y[t]) - (∑ t : Fin m, d0.h[t] * z[t])
+        - (∑ a : Fin n, if a.val < d0.lb.cnt then d0.lb.val[a] * zl[a] else 0)
+        - (∑ a : Fin n, if a.val < d0.ub.cnt then d0.ub.val[a] * zu[a] else 0) ∧
+    info.primalInf = primalInfNr e w ∧ info.dualInf = dualInfNr e w := by
+  intro w info x y z zl zu
+  have hloop : (loopG e.st e.cs (realOps e) ls.c (ls.w, ls.kkt) ls.info).2 = Status.solved := hsolved
+  obtain ⟨hfresh, hpinf, hdinf⟩ := loop_solved_fresh e ls.c (ls.w, ls.kkt) ls.info (Or.inl h0) hloop
+  have hst := status_eq_info_status e.st e.cs (realOps e) ls.c (ls.w, ls.kkt) ls.info
+  change Fresh e w info at hfresh
+  have ho := objectives_are_users e d0 hk hs hi w info
+  refine ⟨?_, ?_, ?_, hpinf, hdinf⟩
+  · show (loopG e.st e.cs (realOps e) ls.c (ls.w, ls.kkt) ls.info).1.2.2.status = Status.solved
+    rw [hst]; exact hloop
+  · rw [← hfresh.diag.2.2.1]; exact ho.1
+  · rw [← hfresh.diag.2.2.2.1]; exact ho.2
+end objectives
+end Piqp.C09
+
